@@ -152,7 +152,7 @@ func init() {
 			}
 			ok := all && strings.Contains(src, `parts := strings.Split(raw, ",")`) && strings.Contains(src, "head := parts[0]") &&
 				strings.Contains(src, "head == tagValue") && strings.Contains(src, "reservedHydraideTagNames[head]") &&
-				strings.Contains(src, `if head == "" { continue }`) && !strings.Contains(src, "strings.Contains(")
+				(strings.Contains(src, `if head == "" { continue }`) || strings.Contains(src, `if head == "" || head == "-" {`)) && !strings.Contains(src, "strings.Contains(")
 			fs.Tri("shapeUsesHead", TriOf(ok), mapb+":"+itoa(fm.Line(fd)))
 		}
 		c22Values(fs)
